@@ -718,11 +718,15 @@ pub fn compress(values: &[FixWord], max_size: u8) -> (Vec<FixWord>, HashMap<FixW
     //
     // Invariant: delta<lower is never a solution.
     // Because delta must be non-negative, we initialize it to zero.
-    let mut lower = FixWord::ZERO;
+    //
+    // Differences and sums of two fix words do not fit in a fix word in general (the values span
+    // nearly 2^32), so they are calculated in 64 bits.
+    let diff = |a: FixWord, b: FixWord| -> i64 { a.0 as i64 - b.0 as i64 };
+    let mut lower = 0_i64;
     // Invariant: delta=upper is always solution.
     // To initialize upper and begin the search we construct a solution that always works: a single
     // interval encompassing the entire slice and the largest delta possible.
-    let max_delta = *dedup_values.last().unwrap() - *dedup_values.first().unwrap();
+    let max_delta = diff(*dedup_values.last().unwrap(), *dedup_values.first().unwrap());
     let mut upper = max_delta;
     let mut solution = vec![dedup_values.len()];
 
@@ -736,12 +740,12 @@ pub fn compress(values: &[FixWord], max_size: u8) -> (Vec<FixWord>, HashMap<FixW
         let mut interval_start = *dedup_values.first().unwrap();
         // The smallest delta such that the candidate solution will be the same.
         // This is the maximum of all gaps that don't start a new interval.
-        let mut delta_lower = FixWord::ZERO;
+        let mut delta_lower = 0_i64;
         // The largest delta such that the candidate solution will be different.
         // This is the minimum of all gaps that start a new interval.
         let mut delta_upper = max_delta;
         for (i, &v) in dedup_values.iter().enumerate() {
-            let gap = v - interval_start;
+            let gap = diff(v, interval_start);
             if gap > delta {
                 // We need to start a new interval
                 if gap < delta_upper {
@@ -787,7 +791,9 @@ pub fn compress(values: &[FixWord], max_size: u8) -> (Vec<FixWord>, HashMap<FixW
                 .expect("the `result` array contains at least 1 element so this is never 0");
             value_to_index.insert(v, index);
         }
-        let replacement = (*interval.last().unwrap() + *interval.first().unwrap()) / 2;
+        let replacement = FixWord(
+            ((interval.last().unwrap().0 as i64 + interval.first().unwrap().0 as i64) / 2) as i32,
+        );
         result.push(replacement);
     }
 
